@@ -304,6 +304,15 @@ class Server:
         while self.pending:
             self._apply(self.pending.pop(0))
 
+    def kill_clients(self, clients) -> None:
+        """The process owning these clients dies: what it has sent is still executed, its replies go
+        nowhere, and nothing new leaves it."""
+        for c in clients:
+            c.dead = True
+        self.drain()
+        self.loop._io[:] = [h for h in self.loop._io
+                            if not (h._callback in (_set_res, _set_exc))]
+
     # -- observation ------------------------------------------------------------------------
     def observe(self, world) -> dict:
         from repid.data._parameters import Parameters
@@ -423,9 +432,12 @@ class Client:
         self.s = server
         self.name = name
         self.fail_next: list = []  # fault injection: exceptions to raise instead of sending
+        self.dead = False  # the client process has died: nothing leaves it any more
 
     async def _rt(self, label: str, fn):
         await asyncio.sleep(0)  # connection checkout / drain: cancellable, nothing sent yet
+        if self.dead:
+            await asyncio.get_running_loop().create_future()  # never
         if self.fail_next:
             exc = self.fail_next.pop(0)
             if exc is not None:
